@@ -8,6 +8,9 @@ def frag_groups(ctx):
     groups = []
     for _ in range(n):
         base = ctx.rng.choice([scen.gen_shell, scen.gen_sync_read, scen.gen_mixed, scen.gen_handshake, scen.gen_push])(ctx.rng)
+        for op in base["ops"]:
+            if op["op"] == "push" and op.get("mtime", 0) == 0:
+                op["mtime"] = 1234567      # mtime=0 means "current time", which legitimately depends on how many reads were needed
         groups.append(scen.refragment(ctx.rng, base))
     metamorphic(ctx, groups, "refragment", ("res", "peer", "sink", "avail", "maxdata", "lid", "ev"),
                 "the same device byte stream under a different read fragmentation gave a different result", "frag-independence")
